@@ -30,5 +30,11 @@ for p, l in by.items():
             # model: thorough tier only
             import re
             heavy = any(int(b) - int(a) > 100000 for a, b in re.findall(r"F(\d+):(\d+)", case)) if case.startswith("tb ") else False
+            # probes of the real code at sizes of hundreds of megabytes: thorough tier only
+            toks = case.split(" ")
+            if toks[0] == "bmprobe" and int(toks[3]) > 1000000:
+                heavy = True
+            if toks[0] == "cmpuptoprobe" and int(toks[1]) > (1 << 26):
+                heavy = True
             f.write("# %s\n%s%s\n" % (src, "#thorough " if heavy else "", case))
 print({p: len(l) for p, l in by.items()})
